@@ -42,6 +42,8 @@ theorem runBulk_slice {sz n : Nat} (h1 : 1 ≤ sz) (h2 : sz ≤ maxPrealloc) (s 
       if n * sz > usizeMax ∨ s.length < n * sz then (.err, s)
       else (.ok (s.take (n * sz)), s.drop (n * sz)) := by
   unfold runBulk
+  have hg : ¬ sz > maxPrealloc := by omega
+  simp only [hg, if_false]
   by_cases hov : n * sz > usizeMax
   · simp [hov]
   · simp only [hov, if_false, false_or]
